@@ -197,6 +197,19 @@ func digitsSepOpt(t *rapid.T) string {
 
 var lts = []string{"\n", "\r", "\r\n", "\u2028", "\u2029"}
 
+// boundaryPad: one content in sixty is padded in front to a length next to a multiple of 4096 (the block sizes in which a
+// scanner may search for a closing delimiter)
+func boundaryPad(t *rapid.T, s string) string {
+	if rapid.IntRange(0, 59).Draw(t, "boundarylen") != 0 {
+		return s
+	}
+	n := rapid.SampledFrom([]int{4093, 4094, 4095, 4096, 4097, 8190, 8191, 8192, 8193}).Draw(t, "contentlen")
+	if len(s) >= n {
+		return s
+	}
+	return strings.Repeat("x", n-len(s)) + s
+}
+
 func stringTok(t *rapid.T) string {
 	q := rapid.SampledFrom([]string{`"`, `'`}).Draw(t, "quote")
 	other := `'`
@@ -205,6 +218,7 @@ func stringTok(t *rapid.T) string {
 	}
 	var sb strings.Builder
 	sb.WriteString(q)
+	sb.WriteString(boundaryPad(t, ""))
 	for n := rapid.IntRange(0, 5).Draw(t, "strn"); n > 0; n-- {
 		sb.WriteString(rapid.SampledFrom([]string{"a", " ", "é", other, `\` + q, `\\`, `\n`, `\x41`, `\u0041`, `\u{1F600}`, `\0`, "\\\n", "\\\r\n", "\\\r", "\\\u2028", "\\\u2029", "\u2028", "//", "/*", "`", "${", "\t", `\` + other}).Draw(t, "strpart"))
 	}
@@ -397,7 +411,7 @@ func (g *generator) tokens(n int, inSub bool) {
 			for k := rapid.IntRange(0, 3).Draw(t, "cbodyn"); k > 0; k-- {
 				body += rapid.SampledFrom([]string{"", "x", "*", "/", " * / ", "\n", "a\r\nb", "\u2028", "\u2029", "\r", "//", "é", "`", "'", "**", "* ", "/*"}).Draw(t, "cbody")
 			}
-			body = strings.ReplaceAll(body, "*/", "* /")
+			body = boundaryPad(t, strings.ReplaceAll(body, "*/", "* /"))
 			tt := js.CommentToken
 			if strings.ContainsAny(body, "\n\r") || strings.Contains(body, "\u2028") || strings.Contains(body, "\u2029") {
 				tt = js.CommentLineTerminatorToken
